@@ -291,10 +291,14 @@ theorem stepCheck_drift (cfg : Cfg) (v : List Int) (st : State) (t : Int) (dsts 
   rw [hover]
   cases labels? with
   | none =>
-    simp only
+    simp only [stepCands_shift cfg v t dsts st hs hd]
+    have hnc : (withVel cfg (some v)).numbaCap = (withVel cfg none).numbaCap := rfl
+    rw [hnc]
     split
     · rfl
-    · split <;> rfl
+    · split
+      · rfl
+      · split <;> rfl
   | some labels =>
     simp only [validWhy_shift cfg v t dsts st labels hs hd, optWhy_shift cfg v t dsts st labels hs hd,
       freshLabels_shift, nextState_shift]
